@@ -4,7 +4,7 @@
 EXTENDS Ref
 
 Par(s) == <<TOpen>> \o s \o <<TClose>>
-LeafTok(t) == CASE t.k = "num" -> TNum(t.v) [] t.k = "var" -> TVar(t.v) [] t.k = "const" -> TConst(t.v)
+LeafTok(t) == CASE t.k = "num" -> TNum(t.v) [] t.k = "var" -> TVar(t.v) [] t.k = "const" -> TConst(t.c)
 
 (* Preorder numbering: the node itself has index idx, its (left) child idx+1, its right child        *)
 (* idx+1+Size(left).  W = indices that get an extra pair of parentheses, uc = unary arguments are     *)
